@@ -11,7 +11,15 @@ import time
 from . import common as C
 from . import progs
 
-THEOREMS = []  # filled below (kept next to the Lean file's content)
+THEOREMS = ["valOf_bv", "bv_valOf", "add_correct", "sub_correct", "mul_correct", "quo_correct_partial", "rem_correct_partial",
+            "neg_correct_partial", "not_correct", "fixNumber_wrap", "conv_correct", "cmp_correct",
+            "scheme_correct_partial", "scheme_un_correct_partial",
+            "quo_min_counterexample", "rem_negzero_counterexample", "neg_min_counterexample", "neg_zero_counterexample",
+            "shr_const_count_counterexample", "shift_negative_count_counterexample",
+            "repr_inv", "repr_inv_un", "repr_inv_conv", "repr_inv_fixNumber", "repr_inv_counterexample",
+            "exact_doubles", "exact_doubles_plain_mul_fails",
+            "mk64_canon", "mk64_value", "add64_correct", "sub64_correct", "neg64_correct", "valOf_toBV", "flatten64_exact",
+            "mul64_correct", "mul64_scheme"]
 
 SMALL = {"int8": (8, True), "int16": (16, True), "int32": (32, True), "int": (32, True),
          "uint8": (8, False), "uint16": (16, False), "uint32": (32, False), "uint": (32, False), "uintptr": (32, False)}
@@ -427,7 +435,7 @@ def gen_units(tier, rng, only_types=None):
                 X = list(range(lo, hi + 1))
                 Y = X
             else:
-                n = (36 if bits < 64 else 28) if thorough else (18 if bits < 64 else 14)
+                n = (36 if bits < 64 else 28) if thorough else (14 if bits < 64 else 12)
                 X = values(ty, rng, n)
                 Y = values(ty, rng, n)
             cmp_budget = 60000
@@ -460,16 +468,19 @@ def gen_units(tier, rng, only_types=None):
 def pack_programs(groups, budget=150000):
     """programs = lists of units of one (type, shape), each within the stdout budget of gvh prog (200 kB clip)"""
     programs = []
+    bytype = {}
     for (ty, shape), units in groups.items():
+        bytype.setdefault(ty, []).extend(units)
+    for ty, units in bytype.items():
         cur, est = [], 0
         for u in units:
             if cur and est + u.est > budget:
-                programs.append((ty, shape, cur))
+                programs.append((ty, "+".join(sorted(set(x.shape for x in cur))), cur))
                 cur, est = [], 0
             cur.append(u)
             est += u.est
         if cur:
-            programs.append((ty, shape, cur))
+            programs.append((ty, "+".join(sorted(set(x.shape for x in cur))), cur))
     return programs
 
 
@@ -541,7 +552,7 @@ def run_program_tie(chk, tier, groups):
     jobs = []
     for i, (ty, shape, units) in enumerate(programs):
         native = any(u.native_ok for u in units)
-        jobs.append({"id": "c06_%s_%s_%d" % (ty, shape, i),
+        jobs.append({"id": "c06_%s_%d" % (ty, i),
                      "files": {"main.go": program_source(ty, units), "helpers_js.go": HELPERS_JS, "helpers_native.go": HELPERS_NATIVE},
                      "variants": ["plain"], "native": native, "timeout": 120})
     t0 = time.time()
@@ -602,6 +613,162 @@ def run_program_tie(chk, tier, groups):
     chk.extra["distinct_driver_queries"] = len(qs)
 
 
+# --------------------------------------------------------------------------------------------------------
+# Tie C: float32/float64/complex programs, GopherJS vs native Go (no Lean model: IEEE arithmetic is the engine's)
+# --------------------------------------------------------------------------------------------------------
+import math
+import struct
+
+FVALS = [0.0, -0.0, 1.0, -1.0, 0.5, 3.0, -2.5, 0.1, 1e300, 1e-300, 5e-324, 1.7976931348623157e308, float("inf"), float("-inf"),
+         float("nan"), 16777217.0, 4294967296.5, 9007199254740992.0, 1.0000000000000002, -7.0]
+CVALS = [0.0, -0.0, 1.0, -2.5, float("inf"), float("nan")]
+CFIN = [1.0, -1.0, 2.5, -3.0, 0.1, 1e10]
+
+
+def fbits(f):
+    return struct.unpack("<Q", struct.pack("<d", f))[0]
+
+
+def flit(f):
+    return "math.Float64frombits(0x%016x)" % fbits(f)
+
+
+F2I = {
+    "int8": [-128.0, 127.0, -1.5, 1.5, 0.999, -0.999, -0.0, 100.7],
+    "int16": [-32768.0, 32767.0, -1.5, 12345.678],
+    "int32": [-2147483648.0, 2147483520.0, -1.5, 1.5, 0.999, -0.999, 123456.789, -0.0],
+    "int": [-2147483648.0, 2147483520.0, -1.5, 65536.5],
+    "uint8": [0.0, 255.0, 1.5, 254.999],
+    "uint16": [0.0, 65535.0, 40000.5],
+    "uint32": [0.0, 4294967040.0, 1.5, 2147483648.5],
+    "uint": [0.0, 4294967040.0, 2147483648.5],
+    "int64": [-9.2e18, 9.2e18, 1e15 + 0.5, -1e15 - 0.5, 4294967296.0, 0.5, -0.5, -4294967297.5, 9007199254740993.0],
+    "uint64": [0.0, 1.8e19, 9.3e18, 4294967295.5, 0.99],
+}
+I2F = {
+    "int32": [0, 1, -1, 2147483647, -2147483648, 16777217, -16777217],
+    "uint32": [0, 4294967295, 16777217, 2147483648],
+    "int64": [0, 1, -1, 9223372036854775807, -9223372036854775808, 9007199254740993, -9007199254740993, 4294967296, -4294967297, 1 << 62],
+    "uint64": [0, 18446744073709551615, 9223372036854775808, 9007199254740993, 4294967296],
+    "int8": [-128, 127], "uint16": [65535],
+}
+
+
+def float_build(part):
+    """-> (main.go source, labels) ; every printed token corresponds to one label; part in float|complex"""
+    labels = []
+    src = ["package main", "", 'import "math"', "",
+           "func fb(f float64) string {\n\tif f != f {\n\t\treturn \"NaN\"\n\t}\n\treturn s_uint64(math.Float64bits(f))\n}",
+           "func fb32(f float32) string {\n\tif f != f {\n\t\treturn \"NaN\"\n\t}\n\treturn s_uint32(math.Float32bits(f))\n}",
+           "var F = [...]float64{%s}" % ", ".join(flit(f) for f in FVALS),
+           "var C = [...]float64{%s}" % ", ".join(flit(f) for f in CVALS),
+           "var D = [...]float64{%s}" % ", ".join(flit(f) for f in CFIN),
+           "func main() {"]
+    if part == "float":
+        src.append("\tfor i := 0; i < len(F); i++ {\n\t\tl := \"\"\n\t\tfor j := 0; j < len(F); j++ {\n\t\t\ta, b := F[i], F[j]\n"
+                   "\t\t\tl += fb(a+b) + \" \" + fb(a-b) + \" \" + fb(a*b) + \" \" + fb(a/b) + \" \"\n"
+                   "\t\t\tx, y := float32(a), float32(b)\n"
+                   "\t\t\tl += fb32(x+y) + \" \" + fb32(x-y) + \" \" + fb32(x*y) + \" \" + fb32(x/y) + \" \" + fb32(float32(a*b)) + \" \"\n"
+                   "\t\t\tl += tf(a == b) + tf(a < b) + tf(a <= b) + tf(a != b) + \" \"\n"
+                   "\t\t}\n\t\tprintln(l)\n\t}")
+        for a in FVALS:
+            for b in FVALS:
+                for op in ("f64add", "f64sub", "f64mul", "f64quo", "f32add", "f32sub", "f32mul", "f32quo", "f32round-of-f64mul", "f64cmp"):
+                    labels.append("float %s %r %r" % (op, a, b))
+        for ty, vals in F2I.items():
+            src.append("\t{\n\t\tv := [...]float64{%s}\n\t\tl := \"\"\n\t\tfor i := 0; i < len(v); i++ {\n\t\t\tl += s_%s(%s(v[i])) + \" \" + s_%s(%s(float32(v[i]))) + \" \"\n\t\t}\n\t\tprintln(l)\n\t}" % (
+                ", ".join(flit(f) for f in vals), ty, ty, ty, ty))
+            for f in vals:
+                labels.append("conv float64->%s %r" % (ty, f))
+                labels.append("conv float32->%s %r" % (ty, struct.unpack("<f", struct.pack("<f", f))[0]))
+        for ty, vals in I2F.items():
+            src.append("\t{\n\t\tv := [...]%s{%s}\n\t\tl := \"\"\n\t\tfor i := 0; i < len(v); i++ {\n\t\t\tl += fb(float64(v[i])) + \" \" + fb32(float32(v[i])) + \" \"\n\t\t}\n\t\tprintln(l)\n\t}" % (
+                ty, ", ".join(str(x) for x in vals)))
+            for x in vals:
+                labels.append("conv %s->float64 %d" % (ty, x))
+                labels.append("conv %s->float32 %d" % (ty, x))
+    else:
+        # complex128 / complex64 on the class grid
+        src.append("\tfor i := 0; i < len(C); i++ {\n\t\tfor j := 0; j < len(C); j++ {\n\t\t\tl := \"\"\n\t\t\tfor k := 0; k < len(C); k++ {\n\t\t\t\tfor m := 0; m < len(C); m++ {\n"
+                   "\t\t\t\t\tn, d := complex(C[i], C[j]), complex(C[k], C[m])\n"
+                   "\t\t\t\t\tq := n / d\n\t\t\t\t\tp := n * d\n"
+                   "\t\t\t\t\tl += fb(real(q)) + \",\" + fb(imag(q)) + \" \" + fb(real(p)) + \",\" + fb(imag(p)) + \" \"\n"
+                   "\t\t\t\t\tn32, d32 := complex64(n), complex64(d)\n\t\t\t\t\tp32 := n32 * d32\n"
+                   "\t\t\t\t\tl += fb32(real(p32)) + \",\" + fb32(imag(p32)) + \" \"\n"
+                   "\t\t\t\t}\n\t\t\t}\n\t\t\tprintln(l)\n\t\t}\n\t}")
+        for a in CVALS:
+            for b in CVALS:
+                for c in CVALS:
+                    for d in CVALS:
+                        labels.append("complex128 quo (%r,%r) (%r,%r)" % (a, b, c, d))
+                        labels.append("complex128 mul (%r,%r) (%r,%r)" % (a, b, c, d))
+                        labels.append("complex64 mul (%r,%r) (%r,%r)" % (a, b, c, d))
+        src.append("\tfor i := 0; i < len(D); i++ {\n\t\tfor j := 0; j < len(D); j++ {\n\t\t\tl := \"\"\n\t\t\tfor k := 0; k < len(D); k++ {\n\t\t\t\tfor m := 0; m < len(D); m++ {\n"
+                   "\t\t\t\t\tq := complex(D[i], D[j]) / complex(D[k], D[m])\n"
+                   "\t\t\t\t\tl += fb(real(q)) + \",\" + fb(imag(q)) + \" \"\n"
+                   "\t\t\t\t}\n\t\t\t}\n\t\t\tprintln(l)\n\t\t}\n\t}")
+        for a in CFIN:
+            for b in CFIN:
+                for c in CFIN:
+                    for d in CFIN:
+                        labels.append("complex128 quo (%r,%r) (%r,%r)" % (a, b, c, d))
+    src.append("}")
+    return "\n".join(src) + "\n", labels
+
+
+def _nums(label):
+    out = []
+    for x in label.replace("(", ",").replace(")", ",").replace(" ", ",").split(","):
+        try:
+            out.append(float(x))
+        except ValueError:
+            pass
+    return out
+
+
+def float_signature(label, impl, spec):
+    p = label.split()
+    if p[0] == "complex128" and p[1] == "quo":
+        v = _nums(label)
+        if any(x == 0 or math.isinf(x) or math.isnan(x) for x in v):
+            return "C06 op=complex-quo operand-component in {0,-0,Inf,-Inf,NaN}"
+        if len(v) == 4 and abs(v[2]) == abs(v[3]) and impl.replace("2147483648:0", "0:0") == spec.replace("2147483648:0", "0:0"):
+            return "C06 op=complex-quo |re(d)|=|im(d)| zero-sign"
+    if p[0] == "conv" and p[1] in ("float64->uint64", "float64->int64", "float32->uint64", "float32->int64"):
+        f = float(p[2])
+        if f != math.floor(f) and math.ceil(abs(f)) % 4294967296 == 0:
+            return "C06 conv float->64-bit fraction just below a multiple of 2^32"
+    return None
+
+
+def run_float_tie(chk):
+    jobs, labs = [], []
+    for part in ("float", "complex"):
+        src, labels = float_build(part)
+        src += "\nfunc tf(b bool) string {\n\tif b {\n\t\treturn \"t\"\n\t}\n\treturn \"f\"\n}\n"
+        jobs.append({"id": "c06_" + part, "files": {"main.go": src, "helpers_js.go": HELPERS_JS, "helpers_native.go": HELPERS_NATIVE},
+                     "variants": ["plain"], "native": True, "timeout": 120})
+        labs.append(labels)
+    res = progs.run_jobs(jobs, par=2)
+    n = 0
+    for job, labels, r in zip(jobs, labs, res):
+        js = progs.observe_js(r["runs"]["plain"])
+        nat = progs.observe_native(r["runs"]["native"])
+        tn = " ".join(nat[0]).split()
+        if nat[1] != "exit0" or len(tn) != len(labels):
+            raise RuntimeError("native float program failed: %s %d/%d" % (nat[1], len(tn), len(labels)))
+        tj = " ".join(js[0]).split()
+        if js[1] != "exit0" or len(tj) != len(labels):
+            chk.add_mismatch("float-programs", "program " + job["id"], js[1] + " tokens=%d" % len(tj), "exit0 tokens=%d" % len(labels))
+            continue
+        for l, a, b in zip(labels, tj, tn):
+            chk.add_case("float-programs", l, kindkey="float:" + " ".join(l.split()[:2]))
+            n += 1
+            if a != b:
+                chk.add_mismatch("float-programs", l, a, b, signature=float_signature(l, a, b))
+    chk.extra["float_program_cases"] = n
+
+
 def run(tier, seed):
     chk = C.Check("C06", tier, seed)
     chk.rule = ("(A) calls of the real 64-bit constructor/$mul64/$div64/$shiftLeft64/$shiftRightInt64/$shiftRightUint64/$flatten64/$imul under Node "
@@ -616,7 +783,10 @@ def run(tier, seed):
                        "x / y on doubles: the integer part of the rounded quotient equals the truncated exact quotient for |x|,|y| < 2^32 (argued, sampled)",
                        "V8 implements ToInt32/ToUint32/shift/bitwise/Math.imul per ECMAScript",
                        "native Go has 64-bit int/uint/uintptr: those types are checked against the Lean spec only"]
+    t0 = time.time()
     chk.proof = C.check_proofs("C06", THEOREMS, tier)
+    chk.extra["proof_wall_s"] = round(time.time() - t0, 1)
+    t0 = time.time()
     # (A) helpers
     ops = helper_ops(tier, chk.rng)
     impl = C.run_node(ops)
@@ -624,9 +794,11 @@ def run(tier, seed):
     spec = C.run_driver("C06", ["num spec " + o[4:] for o in ops])
     chk.compare("prelude-num64", ops, impl, model, spec=spec, kind=helper_kind)
     chk.extra["helper_cases"] = len(ops)
+    chk.extra["helper_wall_s"] = round(time.time() - t0, 1)
     # (B) programs
     groups = gen_units(tier, chk.rng)
     run_program_tie(chk, tier, groups)
+    run_float_tie(chk)
     chk.extra["exhaustive"] = False
     chk.extra["exhaustive_subspace"] = ("all operand pairs of int8/uint8 for every binary operator and comparison, all three shapes"
                                         if tier == "thorough" else "none in the quick tier (boundary grid + random)")
